@@ -1,5 +1,5 @@
 """Texts of MANIFEST.json per property."""
-HOOK_COMMITS = []
+HOOK_COMMITS = ["42f5bf3"]
 NOTES = ("Machine-checked proof in Coq 8.16.1. Each check rebuilds the Coq closure of coq/Props/<ID>.v, rebuilds the Go harness "
          "against /repo's working tree, runs implementation and Gallina model on the same generated cases and applies the violation "
          "protocol of DESIGN.md 2.4. known_findings.json lists genuine unrepaired defects (kind=known) and repaired ones (kind=fixed).")
@@ -13,4 +13,16 @@ TEXT["C16"] = dict(
     note="trusted: Coq kernel + vm_compute; sort.Sort (its output is checked to be a sorted permutation); float64 represented by an "
          "order-isomorphic integer key (NaN excluded); the hand model is tied by sampling, not proof",
     technique="Coq proof (induction over the mutual SExpr/Pair structure, lawful three-way comparisons) + differential correspondence",
+)
+
+TEXT["C01"] = dict(
+    text="Theorems (Coq kernel, no axioms) over a branch-by-branch transcription of micro's walk/occurs/exts/unify/EqualO with explicit "
+         "recursion-depth fuel: on success the result is the old substitution with pairs appended, its solution set is exactly the set of "
+         "unifiers of the two terms compatible with the old bindings (unifier + most general), Fail implies no finite unifier exists, the goal "
+         "yields 0/1 states with the counter unchanged; stated for all terms, all substitutions and all fuel. The model is tied to the code on "
+         "every run by differential execution (unify, EqualO, walk, occurs, exts, walkStar through a verif-tagged export file) and an "
+         "independent reference-unifier oracle (verdict, unifier, most general up to renaming, earlier bindings kept, input not mutated).",
+    note="trusted: Coq kernel + vm_compute; harness interning of symbols; the reference unifier used as oracle; the hand model is tied by sampling. "
+         "Termination/acyclicity-preservation theorems (C01_total, C01_wf) are in UnifyWf.v when present",
+    technique="Coq proof (induction on fuel, solution-set semantics of triangular substitutions) + differential correspondence",
 )
